@@ -1,4 +1,5 @@
 import Utv.Lemmas.C05Frame
+import Utv.Lemmas.C05Wf
 /-!
 C05 — data-class parsing implements the declared field contract.
 
@@ -242,7 +243,7 @@ theorem C05_getattr_view [DecidableEq V] (W : World V) (LL : LowerLaws W) (P : P
 /-- **C05 for `Cls.__from__(data, options=runtime)` from the declaration as written.** -/
 theorem C05_init_refines [DecidableEq V] (W : World V) (LL : LowerLaws W) (c : ClassDecl V)
     (runtime : Option (Opts V)) (data : List (Key × V)) (hnd : (data.map (·.1)).Nodup)
-    (hwf : (mkParser W c).wf W = true) :
+    (hnames : (mkParser W c).wfNames W = true) :
     let P := mkParser W c
     let o := (runtime.getD c.opts).normalise
     ((∃ m a, initSchema {} W c runtime data = .ok m a) ↔ (contract W P o data).errs = [])
@@ -250,6 +251,7 @@ theorem C05_init_refines [DecidableEq V] (W : World V) (LL : LowerLaws W) (c : C
     ∧ (∀ es, o.maxErrors = none → initSchema {} W c runtime data = .collected es →
         SetEq es (contract W P o data).errs) := by
   intro P o
+  have hwf : P.wf W = true := wf_of_struct (mkParserIn_struct W LL [] (by simp) c) hnames
   exact ⟨C05_success_iff W LL P hwf o data hnd,
     fun e h => C05_failfast_sound W LL P hwf o data hnd e h,
     fun es hm h => C05_collected_exact W LL P hwf o data hnd es hm h⟩
@@ -529,9 +531,20 @@ theorem C05_frame_addition [DecidableEq V] (W : World V) (LL : LowerLaws W) (P :
 
 /-! ### class hierarchies -/
 
-theorem buildAll_snoc (W : World V) (decls : List (ClassDecl V)) (c : ClassDecl V) :
-    buildAll W (decls ++ [c]) = buildAll W decls ++ [mkParserIn W (buildAll W decls) c] := by
-  simp [buildAll, List.foldl_append]
+/-- **Where `wf` comes from.**  Of the sixteen conjuncts of `Parser.wf`, ten hold for whatever `ClassParser.setup`
+builds, for every sequence of class declarations (`buildAll_struct`, Lemmas/C05Wf.lean); what is left to assume about a
+declaration is `Parser.wfNames`: no clash of names — distinct output and attribute names, no key accepted by two
+fields, no alias that is another field's key, no case-sensitive alias that lower-cases into a case-insensitive one,
+every dependency names a field.  Those are the conditions `generate_aliases` / `apply_fields` raise ConfigError on
+(a decidable superset; compared with ConfigError on generated declarations by the correspondence run). -/
+theorem C05_wf_of_no_name_clash (W : World V) (LL : LowerLaws W) (decls : List (ClassDecl V)) (B : Built V)
+    (hB : B ∈ buildAll W decls) (hn : B.parser.wfNames W = true) : B.parser.wf W = true :=
+  wf_of_struct (buildAll_struct W LL decls B hB) hn
+
+/-- for a class on its own -/
+theorem C05_wf_of_no_name_clash_single (W : World V) (LL : LowerLaws W) (c : ClassDecl V)
+    (hn : (mkParser W c).wfNames W = true) : (mkParser W c).wf W = true :=
+  wf_of_struct (mkParserIn_struct W LL [] (by simp) c) hn
 
 theorem buildAll_length (W : World V) (decls : List (ClassDecl V)) : (buildAll W decls).length = decls.length := by
   induction decls using Utv.List.rev_ind with
@@ -558,7 +571,7 @@ all of them. -/
 theorem C05_hierarchy_refines [DecidableEq V] (W : World V) (LL : LowerLaws W) (decls : List (ClassDecl V))
     (target : Nat) (B : Built V) (hB : (buildAll W decls)[target]? = some B)
     (runtime : Option (Opts V)) (data : List (Key × V)) (hnd : (data.map (·.1)).Nodup)
-    (hwf : B.parser.wf W = true) :
+    (hnames : B.parser.wfNames W = true) :
     let o := (runtime.getD B.opts).normalise
     ∃ out, initSchemaH {} W decls target runtime data = some out
       ∧ ((∃ m a, out = .ok m a) ↔ (contract W B.parser o data).errs = [])
@@ -569,6 +582,7 @@ theorem C05_hierarchy_refines [DecidableEq V] (W : World V) (LL : LowerLaws W) (
             ∧ dget kf.2.name m = (dget kf.2.name (contract W B.parser o data).result).filter
                 (fun v => !noOutput W o kf.2 v)) := by
   intro o
+  have hwf : B.parser.wf W = true := C05_wf_of_no_name_clash W LL decls B (List.mem_of_getElem? hB) hnames
   refine ⟨finish {} W B.parser o (parseData {} W B.parser o data), ?_, ?_, ?_, ?_, ?_⟩
   · unfold initSchemaH; rw [hB]; rfl
   · exact C05_success_iff W LL B.parser hwf o data hnd
@@ -610,6 +624,11 @@ def cRich : ClassDecl Nat :=
     opts := { addition := .allow }, excluded := [7] }
 
 example : (mkParser W₀ cRich).wf W₀ = true := by decide
+example : (mkParser W₀ cRich).wfNames W₀ = true := by decide
+/-- a clash `wfNames` rejects: `a: int = Field(alias_from=['b'])`, `b: int` — key 'b' (3) is accepted by two fields
+(`generate_aliases` / `apply_fields` raise ConfigError) -/
+example : (mkParser W₀ ({ fields := [{ attname := 0, aliasFrom := [3] }, { attname := 3 }], opts := {} } : ClassDecl Nat)).wfNames W₀
+    = false := by decide
 example : (mkParser W₀ cRich).excludeVars = [9, 7] := by decide
 /-- 'A' (1) and 'a' (0) both reach the case-insensitive field, stored under its alias; the method name is dropped,
 another unknown key is kept -/
